@@ -1,8 +1,12 @@
 /-
   Cosi.Driver.Ctrl — engine `ctrl` (C06, C07): replays the recorded write log of the real
-  controller on the store model and evaluates the monitors of Cosi.Model.CtrlMonitor.
+  controller on the store model and evaluates the monitors of Cosi.Model.CtrlMonitor. In model
+  mode every successful controller write of a transform / cleanup run must also be a write of the
+  machine of Cosi.Model.Transform / Cosi.Model.Cleanup (`Ctrl.machineViolations`: trace inclusion,
+  sound by `C07T.machine_writes_ok` / `C07C.machine_writes_ok`).
 -/
 import Cosi.Model.CtrlMonitor
+import Cosi.Model.CtrlMachine
 import Cosi.Driver.Store
 
 namespace Cosi.Driver.Ctrl
@@ -11,9 +15,10 @@ open Cosi Cosi.Driver.Store Cosi.Ctrl
 structure St where
   cfg : Ctrl.Cfg := { kind := "" }
   store : Store := []
+  spec : Bool := false
 
-def init (_spec : Bool) (a : List (String × String)) : St :=
-  { cfg := { kind := arg a "ctl" } }
+def init (spec : Bool) (a : List (String × String)) : St :=
+  { cfg := { kind := arg a "ctl" }, spec := spec }
 
 def stepLine (st : St) (op : String) (a : List (String × String)) : St × String :=
   if op == "quiesce" then
@@ -26,7 +31,8 @@ def stepLine (st : St) (op : String) (a : List (String × String)) : St × Strin
     | none => (st, "bad-op")
     | some o =>
       let (s', out) := step {} st.store (argNat a "t") o
-      let v := violations st.cfg (arg a "a") o out.isOk st.store s'
+      let v := violations st.cfg (arg a "a") o out.isOk st.store s' ++
+        (if st.spec then [] else machineViolations st.cfg (arg a "a") out.isOk st.store s')
       ({ st with store := s' },
         outStr out (arg a "ns") (arg a "typ") ++ (if v.isEmpty then " inv=ok" else " inv=VIOLATED:" ++ ",".intercalate v))
 
